@@ -466,8 +466,13 @@ def extract(crate, fn):
     # enumerate-driven loops are read in their index form (desugar D7); the function record is copied, the facts are not changed
     import copy as _copy
     from . import desugar as _ds
-    if any(x.get("k") == "mcall" and x.get("name") == "enumerate" for x in walk(fn["body"])):
+    if any(x.get("k") == "mcall" and x.get("name") in ("enumerate", "zip") for x in walk(fn["body"])):
         fn2 = _copy.deepcopy(fn)
-        if _ds.enumerate_to_index(fn2, crate.types):
+        changed = False
+        for _ in range(6):       # nested loops over the elements bound by an outer rewritten loop
+            if not _ds.enumerate_to_index(fn2, crate.types):
+                break
+            changed = True
+        if changed:
             fn = fn2
     return Extract(crate, fn).run()
